@@ -1190,7 +1190,7 @@ class EtreeElementNode(ElementNode):
         elif self.value.text is not None:
             yield from get_atomic_sequence(self.xsd_type, self.value.text, self.nsmap)
         elif self.value.get(XSI_NIL) in ('1', 'true'):
-            yield ''
+            return  # the typed value of a nilled element is the empty sequence
         else:
             value = getattr(self.xsd_element, 'value_constraint', None)
             yield from get_atomic_sequence(self.xsd_type, value or '')
